@@ -267,6 +267,26 @@ def wave_clauses(name, s, R, dg, res):
                 worst, wf, wi = float(m[i]), fld, i
         return worst, wf, wi
 
+    # (c) beyond the tabulated extent the wave is in its far-upstream / far-downstream equilibrium state: points 0.5 and 2
+    # profile widths outside either end, in the moving frame, at t = 0, the last lattice time and a late time (1e-6 s: the
+    # wave has left any fixed grid by then) must return the profile's end value on that side (added after the seeded change
+    # S2-C12-3, which swapped the two fill values)
+    qfar = np.array([xi[0] - 2.0 * width, xi[0] - 0.5 * width, xi[-1] + 0.5 * width, xi[-1] + 2.0 * width])
+    for t in (0.0, TIMES[-1], 1.0e-6):
+        solf = call(s, qfar + speed * t, t)
+        res["evals"] += 1
+        worst, wf = 0.0, None
+        for fld in solf.dtype.names:
+            if fld == "position" or fld not in FIELD_ATTR or not hasattr(s, FIELD_ATTR[fld]):
+                continue
+            prof = np.flip(np.asarray(getattr(s, FIELD_ATTR[fld]), float))
+            want = np.array([prof[0], prof[0], prof[-1], prof[-1]])
+            got = np.asarray(solf[fld], float)
+            dg.add(got)
+            m = float(oracle.mismatch(got, want, floor=1e-12).max())
+            if m > worst:
+                worst, wf = m, fld
+        out.append(("wave:far-field-is-the-end-state", worst, TOL_ANCHOR, {"field": wf, "offsets_in_profile_widths": [-2.0, -0.5, 0.5, 2.0]}, {"t": t}))
     base = None
     for t in TIMES:
         cur = moved(speed, t)
